@@ -191,9 +191,12 @@ CHECKS.update({
         text="Coq theorems about a model of versions.py over the schema AST, for every schema (any keywords, nesting, recursive "
              "definitions) and every datum: the draft 2019-09 and draft-07 renderings accept exactly the instances of the "
              "2020-12 schema, draft-07 being validated under its own rule that $ref excludes its siblings "
-             "(C18_draft_7_same_instances, C18_draft_7_ref_has_no_sibling); OpenAPI 3.1 is the identity. OpenAPI 3.0 is partial: "
-             "its conversion is modelled and compared structurally, its preservation is checked on the cases through the "
-             "documented nullable mapping, not proved. Tie: convert(model) = implementation output per version; per-dialect "
+             "(C18_draft_7_same_instances, C18_draft_7_ref_has_no_sibling); OpenAPI 3.1 is the identity. OpenAPI 3.0 "
+             "(C18_openapi_3_0_same_instances): the stage-by-stage model of to_open_api_3_0 preserves the instances under the "
+             "dialect's own rules (nullable, $ref excluding siblings) for every schema meeting executable side conditions at "
+             "every node (nothing dropped, one type keyword, siblings of a moved null accept null), counted on the cases; the "
+             "proof exposed two defects of the conversion (list-valued type beside anyOf, const beside enum), repaired, with "
+             "the refutation of the old stages kept as a theorem. Tie: convert(model) = implementation output per version; per-dialect "
              "jvalid = jsonschema Draft7 / 2019-09 validators; vocabulary and prefix checks at every nesting level.",
         note=SCHEMA_NOTE + " OpenAPI 3.0 has no independent validator in the sandbox: it is read through the documented mapping "
              "(nullable -> anyOf null).",
